@@ -173,6 +173,13 @@ Step(r) ==
                                  \* (unless it contradicts what the peer itself made the client store before)
                                  /\ (r.a.kind = "honest" /\ LatestTrue(r.a.p, r.a.tip) /\ CachedTrue(r.a.tip)) => out'.ban = {}
       [] r.ev = "Filters"    -> /\ RecvFilters(r.a.p, [start |-> r.a.start, fs |-> r.a.fs, hs |-> r.a.hs])
+                                \* progress moves the cached hashes to the interval of the new position, and the next batch is
+                                \* requested exactly when the hashes to check it against are there
+                                /\ minF' # minF =>
+                                     /\ cached' = Recache(cached, minF')
+                                     /\ LET asked == {m.start : m \in {x \in ToSet(r.out.sent) : x.kind = "GetBlockFilters"}}
+                                        IN IF CouldRequestMore(minF') THEN asked = {minF' + 1} ELSE asked = {}
+                                /\ minF' = minF => cached' = cached
                                 /\ (subst' # subst => PrintT(<<"KNOWN-FINDING", "KF-C06-blockhash", subst' \ subst>>))
       [] r.ev = "BlocksProof" -> BlocksProofEv(r.a)
       [] r.ev = "Block"      -> RecvBlock(r.a.p, r.a.b, r.a.body)
